@@ -171,9 +171,18 @@ Definition ds_concatenate (l : list dset) (r : axref) : res dset :=
   | [] => Err OtherError
   | s0 :: _ =>
       if negb (same_keys l) then Err AssertionError else
+      (* the axis is a dimension of the DATASET (a position counts in its dims, not in each variable's) *)
+      let! id := ds_axis_ref s0 r in
+      let d := aname (hget (heap s0) id) in
       let! vars := mapM (fun k =>
           let arrs := flat_map (fun s => match find (fun p => String.eqb (fst p) k) (ds_vars_arr s) with Some p => [snd p] | None => [] end) l in
-          let! x := concatenate arrs r false false in Ok (k, x)) (ds_keys s0) in
+          match arrs with
+          | [] => Err OtherError
+          | a0 :: rest =>
+              if has_dim a0 d then let! x := concatenate arrs (ByName d) false false in Ok (k, x)
+              else if forallb (darr_eqb a0) rest then Ok (k, a0)      (* a variable without that dimension is left unchanged *)
+              else Err ValueError
+          end) (ds_keys s0) in
       ds_assemble [] vars []
   end.
 
